@@ -155,7 +155,7 @@ func init() {
 		func(p *Prog, r *Report) {
 			ruleWrapCompose(p, r, []wrapSpec{{"mxj.Map.Copy", []string{"mxj.Map.Json", "mxj.NewMapJson"}, false}})
 		},
-		ruleWrapWriter, ruleJsonListWrap, ruleJsonIdentity, ruleOptWriters,
+		ruleWrapWriter, ruleJsonListWrap, ruleJsonIdentity, ruleOptWriters, ruleJsonNoMarshal,
 		func(p *Prog, r *Report) {
 			ruleErr(p, r, concat(grpJsonEncode, []string{"mxj.NewMapJson", "mxj.NewMapJsonReader", "mxj.NewMapJsonReaderRaw"}), "JSON functions")
 		})
@@ -297,7 +297,7 @@ func init() {
 	register("C11",
 		"Structural clauses of SetValueForPath / Remove / RenameKey: PAIR.atomic (exactly the documented writes, none in a loop, no error return reachable after a write, the renamed value moved unchanged then the old key deleted on the same parent, collision test is a presence test), WALK.progress for the parent walker (parent returned by position, recursion on the rest of the path; a value that is not a map ends the walk with an error), PATH.segments (the path is taken apart at its last separator: the deleted / moved key is the last segment, the sibling that forbids a rename is looked up under the path without its last segment), PANIC.assert/idx/nil, PRESENCE.commaok. Not decided: the frame condition as a whole; refusal to overwrite at top level (a string-value fact)."+levelNote,
 		nil,
-		rulePairAtomic, ruleWalkParent, rulePathSegments,
+		rulePairAtomic, ruleWalkParent, rulePathSegments, ruleParentNotQueried,
 		func(p *Prog, r *Report) {
 			in := map[string]bool{}
 			for _, f := range p.scopeFuncs(r, "PRESENCE.commaok", grpMutators[:3]) {
@@ -325,7 +325,8 @@ func init() {
 			ruleIoNoBuffer(p, r, p.scopeFuncs(r, "IO.nobuffer", []string{"mxj.NewMapXmlReader", "mxj.NewMapXmlReaderRaw", "mxj.NewMapXmlSeqReader", "mxj.NewMapXmlSeqReaderRaw",
 				"mxj.NewMapJsonReader", "mxj.NewMapJsonReaderRaw", "mxj.HandleXmlReader", "mxj.HandleXmlReaderRaw", "mxj.HandleJsonReader", "mxj.HandleJsonReaderRaw"}), "stream decoders")
 		},
-		ruleIOTee, ruleJsonEscape,
+		ruleIOTee, ruleJsonEscape, ruleDecoderConfig,
+		func(p *Prog, r *Report) { ruleJsonScanClosing(p, r, "mxj.getJson") },
 		ruleJsonDecoderFor([]string{"mxj.NewMapJson", "mxj.NewMapJsonReader", "mxj.NewMapJsonReaderRaw", "mxj.HandleJsonReader", "mxj.HandleJsonReaderRaw", "mxj.NewMapsFromJsonFile", "mxj.NewMapsFromJsonFileRaw"}),
 		func(p *Prog, r *Report) {
 			ruleLoopHandler(p, r, []string{"mxj.HandleXmlReader", "mxj.HandleXmlReaderRaw", "mxj.HandleJsonReader", "mxj.HandleJsonReaderRaw"})
@@ -360,7 +361,7 @@ func init() {
 		nil,
 		func(p *Prog, r *Report) { ruleOrder(p, r, encoderRoots()) },
 		func(p *Prog, r *Report) { ruleNondet(p, r, encoderRoots()) },
-		ruleWrapWriter, ruleWrapConcat, ruleInflIndent, ruleValidCoupling, ruleSeqTypes,
+		ruleWrapWriter, ruleWrapConcat, ruleInflIndent, ruleValidCoupling, ruleSeqTypes, ruleJsonNoMarshal,
 		func(p *Prog, r *Report) {
 			ruleFwdNames(p, r, func(n string) bool { return hasPrefixAny(n, "mxj.Maps.", "mxj.Map.", "mxj.MapSeq.", "mxj.AnyXml", "mxj.BeautifyXml") })
 		},
@@ -390,6 +391,7 @@ func init() {
 		"Structural clauses of 'files, gob and Copy read back equal': WRAP.concat (file writers write exactly the string form, which is the concatenation of per-Map encodings), WRAP.fileloop (readers loop on the raw reader over the opened file; exits only by io.EOF or an error return carrying the Maps read so far; every decoded Map is appended), TABLE.gob (Encode/Decode type agreement; container types registered), WRAP.compose + OWN.fresh (Copy), JSON.decoder (every JSON decode the reader and file functions reach is the one Decoder of NewMapJson on which UseNumber is set under JsonUseNumber: numbers written from json.Number values are read back as such), ERR.path on the file and gob functions. Not decided: equality of what is read back; behaviour on truncated files."+levelNote,
 		nil,
 		ruleWrapConcat, ruleWrapFileLoop, ruleTableGob, ruleJsonEscape,
+		func(p *Prog, r *Report) { ruleJsonScanClosing(p, r, "mxj.getJson") },
 		func(p *Prog, r *Report) {
 			ruleFwdNames(p, r, func(n string) bool { return hasPrefixAny(n, "mxj.Maps.", "mxj.NewMapsFrom") })
 		},
@@ -413,6 +415,7 @@ func init() {
 			ruleFwdVariadic(p, r, func(n string) bool { return hasPrefixAny(n, "j2x.", "x2j.", "x2jw.") })
 		},
 		func(p *Prog, r *Report) { ruleFwdIdentity(p, r, "j2x", "x2j") },
+		ruleOptWriters,
 		func(p *Prog, r *Report) { ruleScanComplete(p, r, p.PkgFuncs("x2jw")) },
 		func(p *Prog, r *Report) { ruleInflCrumb(p, r, []string{"x2jw.hasKeyPath"}) },
 		func(p *Prog, r *Report) {
